@@ -16,15 +16,18 @@ OVERLAY = {
     "core/stat/verif_cpu.go": os.path.join(vlib.HARNESS, "overlay/stat/verif_cpu.go"),
     "core/timex/relativetime.go": os.path.join(vlib.HARNESS, "overlay/timex/relativetime.go"),
 }
-OVERLAY_REST = {"rest/handler/verif_c02_rest_test.go": os.path.join(vlib.HARNESS, "overlay/resthandler/verif_c02_rest_test.go")}
-OVERLAY_RPC = {"zrpc/internal/serverinterceptors/verif_c02_rpc_test.go":
-               os.path.join(vlib.HARNESS, "overlay/serverinterceptors/verif_c02_rpc_test.go")}
-EXECUTORS = {   # kind -> (package, overlay, test)
+_CLOCK_CPU = {k: v for k, v in OVERLAY.items() if not k.endswith("_test.go")}
+OVERLAY_REST = dict(_CLOCK_CPU, **{"rest/handler/verif_c02_rest_test.go":
+                                   os.path.join(vlib.HARNESS, "overlay/resthandler/verif_c02_rest_test.go")})
+OVERLAY_RPC = dict(_CLOCK_CPU, **{"zrpc/internal/serverinterceptors/verif_c02_rpc_test.go":
+                                  os.path.join(vlib.HARNESS, "overlay/serverinterceptors/verif_c02_rpc_test.go")})
+EXECUTORS = {   # executor -> (package, overlay, test)
     "shed": ("./core/load", OVERLAY, "^TestVerifC02$"),
     "group": ("./core/load", OVERLAY, "^TestVerifC02Group$"),
     "rest": ("./rest/handler", OVERLAY_REST, "^TestVerifC02Rest$"),
     "rpc": ("./zrpc/internal/serverinterceptors", OVERLAY_RPC, "^TestVerifC02Rpc$"),
 }
+EXEC_OF = {"shed": "shed", "multi": "shed", "group": "group", "rest": "rest", "wrest": "rest", "rpc": "rpc", "wrpc": "rpc"}
 REST_CODES = [200, 201, 204, 301, 400, 404, 429, 500, 502, 503, 503, 504]
 RPC_OUTS = ["ok", "err", "deadline", "wrapped", "status_deadline", "panic"]
 RPC_COQ = {"ok": "GOk", "err": "GErr", "deadline": "GDeadline", "wrapped": "GWrappedDeadline",
@@ -36,10 +39,49 @@ TWO30 = Fraction(2 ** 30)
 _coq_eval_cases = vlib.coq_eval_cases
 
 
+EXCL_CACHE = {}     # case term -> prop_ok_excl (only for the terms that can hit the known NaN corner)
+_CORNER_RE = re.compile(r"^CShed \(mkCase \(mkCfg \S+ \S+ 1000 true\)")
+
+
 def _coq_eval_cases_small_shards(prop, check_module, terms, preamble="", shard=400, timeout=900):
-    if prop == "C02":
-        shard = max(4, min(40, (len(terms) + 2 * vlib.NCPU - 1) // (2 * vlib.NCPU)))
-    return _coq_eval_cases(prop, check_module, terms, preamble=preamble, shard=shard, timeout=timeout)
+    """C02: small shards (a case costs 50-100 ms), and for the histories with cpuThreshold = cpuMax the verdict of
+    the property WITH shed_when_saturated's excluding hypothesis is computed in the same coqc run (known() needs
+    it to tell the known finding from anything else) instead of one coqc process per failing case later."""
+    if prop != "C02" or not terms:
+        return _coq_eval_cases(prop, check_module, terms, preamble=preamble, shard=shard, timeout=timeout)
+    import concurrent.futures
+    shard = max(4, min(40, (len(terms) + 2 * vlib.NCPU - 1) // (2 * vlib.NCPU)))
+    shards = [terms[i:i + shard] for i in range(0, len(terms), shard)]
+
+    def work(ix):
+        body = ["From Coq Require Import List ZArith String.", "From GZ Require Import %s." % check_module,
+                "Import ListNotations.", "Open Scope Z_scope.", preamble]
+        extra = []
+        for j, t in enumerate(shards[ix]):
+            body.append("Definition c%d : case := %s." % (j, t))
+            body.append("Eval vm_compute in (agrees c%d, prop_ok c%d)." % (j, j))
+            if _CORNER_RE.match(t):
+                body.append("Eval vm_compute in (prop_ok_excl c%d, true)." % j)
+                extra.append(j)
+        rc, out = vlib._coqc_tmp("%s_cases_%d_%d" % (prop, os.getpid(), ix), "\n".join(body) + "\n", timeout)
+        if rc != 0:
+            raise RuntimeError("coqc failed on case shard %d:\n%s" % (ix, out[-4000:]))
+        pairs = [(a == "true", b == "true") for a, b in vlib.PAIR_RE.findall(out)]
+        if len(pairs) != len(shards[ix]) + len(extra):
+            raise RuntimeError("case shard %d: expected %d results, got %d\n%s"
+                               % (ix, len(shards[ix]) + len(extra), len(pairs), out[-2000:]))
+        rs, k = [], 0
+        for j, t in enumerate(shards[ix]):
+            rs.append(pairs[k])
+            k += 1
+            if j in extra:
+                EXCL_CACHE[t] = pairs[k][0]
+                k += 1
+        return rs
+
+    with concurrent.futures.ThreadPoolExecutor(max_workers=vlib.NCPU) as ex:
+        parts = list(ex.map(work, range(len(shards))))
+    return [r for p_ in parts for r in p_]
 
 
 vlib.coq_eval_cases = _coq_eval_cases_small_shards
@@ -134,8 +176,51 @@ class C02(Property):
             ops = [["allow", B, 0, 0] for _ in range(12)] + [["pass", i, B + 99 * MS] for i in range(6)]
             ops += [["fail", 6], ["fail", 7], ["allow", B + tt, 990, 990], ["allow", B + tt, 990, 990]]
             cs.append(self._case(SEC, 10, 900, B, ops))
-        # wrappers: every outcome class, shed and let in, with and without panic / body
-        reqs = [{"shed": True, "codes": [200], "body": True, "panic": False}]
+        # virtual clock at 0: timex.Now() = 0 is "unset" for overloadTime - an overloaded Allow at clock 0 followed by
+        # a shed leaves droppedRecently set with overloadTime = 0 (stillHot's "overloadTime == 0" return)
+        ops = [["allow", 0, 0, 0] for _ in range(20)] + [["fail", 0], ["fail", 1], ["allow", 0, 1000, 1000],
+                                                          ["allow", 0, 0, 0], ["allow", 5, 0, 0], ["allow", 5, 1000, 1000], ["allow", 6, 0, 0]]
+        cs.append(self._case(5 * SEC, 50, 900, 0, ops))
+        # buckets longer than a second / not dividing it, warmed up, CPU high: capacity far above the floor of 1
+        for (w, b) in ((10 * SEC, 5), (60 * SEC, 50), (3750 * MS, 50), (3 * SEC, 5)):
+            bd = w // b
+            ops = [["allow", B, 0, 0] for _ in range(24)] + [["pass", i, B + 30 * MS] for i in range(20)]
+            t = B + bd + 1
+            ops += [["allow", t, 0, 0] for _ in range(6)] + [["fail", 44 + i] for i in range(4)]
+            ops += [["allow", t, 1000, 1000], ["allow", t, 950, 950], ["allow", t + 2 * bd, 1000, 1000]]
+            cs.append(self._case(w, b, 900, B, ops))
+        # two shedders with the same configuration + a group member, Disable() before the last construction
+        sh = [{"window": SEC, "buckets": 10, "threshold": 900, "via": "direct", "key": ""},
+              {"window": SEC, "buckets": 10, "threshold": 900, "via": "direct", "key": ""},
+              {"window": 2 * SEC, "buckets": 4, "threshold": 500, "via": "group", "key": "a"},
+              {"window": 2 * SEC, "buckets": 4, "threshold": 500, "via": "group", "key": "b"}]
+        ops = [["new", 0, B], ["new", 1, B], ["new", 2, B]]
+        ops += [["allow", 0, B, 0, 0] for _ in range(12)]                          # ops 3..14
+        ops += [["pass", 0, 3 + i, B + 20 * MS] for i in range(8)]                 # 15..22
+        ops += [["allow", 2, B + 20 * MS, 0, 0] for _ in range(5)]                 # 23..27
+        ops += [["disable"], ["new", 3, B + 30 * MS]]                              # 28, 29
+        ops += [["allow", 1, B + 150 * MS, 1000, 1000], ["allow", 0, B + 150 * MS, 1000, 1000],
+                ["allow", 3, B + 150 * MS, 1000, 1000], ["fail", 2, 23], ["fail", 2, 24],
+                ["allow", 2, B + 150 * MS, 1000, 1000], ["allow", 3, B + 151 * MS, 1000, 1000], ["pass", 3, 32, B + 152 * MS]]
+        cs.append({"kind": "multi", "t0": B, "mode": "real",
+                   "group": {"window": 2 * SEC, "buckets": 4, "threshold": 500, "via": "group", "key": ""},
+                   "shedders": sh, "ops": ops})
+        # wrappers in front of a real shedder: handlers that panic / answer 503 / time out while others are in flight
+        reqs = [{"codes": [], "body": True, "panic": False} for _ in range(14)]
+        reqs[1] = {"codes": [500], "body": False, "panic": True}
+        reqs[2] = {"codes": [503], "body": False, "panic": False}
+        reqs[3] = {"codes": [200, 503], "body": False, "panic": True}
+        ops = [["start", B, 0, i] for i in range(12)] + [["finish", i, B + 5 * MS] for i in range(6)]
+        ops += [["start", B + 150 * MS, 950, 12], ["start", B + 150 * MS, 950, 13], ["finish", 18, B + 151 * MS]]
+        ops += [["finish", i, B + 160 * MS] for i in range(6, 12)] + [["start", B + 161 * MS, 1000, 0]]
+        cs.append({"kind": "wrest", "window": 5 * SEC, "buckets": 50, "threshold": 900, "t0": B, "reqs": reqs, "ops": ops})
+        outs = ["ok", "panic", "deadline", "wrapped", "err", "status_deadline"] + ["ok"] * 8
+        cs.append({"kind": "wrpc", "window": 5 * SEC, "buckets": 50, "threshold": 900, "t0": B,
+                   "reqs": [{"out": o} for o in outs], "ops": ops})
+        # wrappers: every outcome class, shed and let in, with and without panic / body; no shedder configured
+        reqs = [{"shed": True, "codes": [200], "body": True, "panic": False},
+                {"nil": True, "shed": False, "codes": [], "body": True, "panic": False},
+                {"nil": True, "shed": False, "codes": [503], "body": False, "panic": True}]
         for codes in ([], [200], [503], [500], [500, 503], [503, 200], [204, 503, 404]):
             for pn in (False, True):
                 reqs.append({"shed": False, "codes": codes, "body": not pn, "panic": pn})
@@ -158,7 +243,21 @@ class C02(Property):
 
     CONFIGS = [(5 * SEC, 50), (5 * SEC, 50), (SEC, 10), (SEC, 1), (2 * SEC, 2), (3 * SEC, 10), (10 * SEC, 50), (10 * SEC, 7),
                (3200 * MS, 50), (3200 * MS, 50), (1600 * MS, 25), (6400 * MS, 50), (50 * MS, 50), (500 * MS, 10), (64 * MS, 4),
-               (7 * SEC, 33), (4 * SEC, 3)]
+               (7 * SEC, 33), (4 * SEC, 3),
+               # bucket durations that do not divide one second (75 ms, 600 ms, 333.333 us), that exceed it (1.2 s =
+               # WithWindow(time.Minute), 2 s, one 60 s bucket), tiny windows (1 ns / 3 ns / 100 ns buckets)
+               (3750 * MS, 50), (750 * MS, 10), (3 * SEC, 5), (60 * SEC, 50), (60 * SEC, 50), (10 * SEC, 5), (60 * SEC, 1),
+               (MS, 3), (50, 50), (7, 2), (1000, 10), (3 * SEC, 4), (1500 * MS, 1)]
+    THRESHOLDS = [900] * 8 + [500, 100, 990, 936, 0, 0, 1000, 1000, 1100, 999, 1, -5]
+
+    def _config(self, rng):
+        r = rng.random()
+        if r < 0.75:
+            return rng.choice(self.CONFIGS)
+        if r < 0.9:
+            return rng.randint(1, 10) * SEC, rng.randint(1, 50)
+        b = rng.randint(1, 50)      # any window >= buckets ns (a bucket lasts at least 1 ns)
+        return rng.choice([b * rng.randint(1, 2000), rng.randint(b, 90 * SEC), b * 75 * MS + rng.randrange(b)]), b
 
     def _gen_other(self, rng):
         r = rng.random()
@@ -181,12 +280,16 @@ class C02(Property):
             if rng.random() < 0.12:
                 cases.append(self._gen_other(rng))
                 continue
-            if rng.random() < 0.8:
-                window, buckets = rng.choice(self.CONFIGS)
-            else:
-                window, buckets = rng.randint(1, 10) * SEC, rng.randint(1, 50)
+            r0 = rng.random()
+            if r0 < 0.22:
+                cases.append(self._gen_multi(rng, tier))
+                continue
+            if r0 < 0.34:
+                cases.append(self._gen_wreal(rng, tier))
+                continue
+            window, buckets = self._config(rng)
             bd = window // buckets
-            th = rng.choice([900] * 8 + [500, 100, 990, 936, 0, 1000, 1100, 999])
+            th = rng.choice(self.THRESHOLDS)
             t0 = BASE + rng.choice([0, 1, rng.randrange(10 * SEC)])
             enabled = rng.random() > 0.04
             via = "group" if rng.random() < 0.15 else "direct"
@@ -241,6 +344,109 @@ class C02(Property):
             cases.append(self._case(window, buckets, th, t0, ops[:nops], enabled, via, mode))
         return cases
 
+    # several shedders of one process (directly built and members of ONE ShedderGroup), built at different
+    # moments, load.Disable() possibly in between, their Allow / Pass / Fail operations interleaved
+    def _gen_multi(self, rng, tier):
+        n = rng.choice([2, 2, 3, 4])
+        gcfg = None
+        shedders = []
+        for k in range(n):
+            window, buckets = self._config(rng)
+            th = rng.choice([t for t in self.THRESHOLDS if t != 1000])
+            if rng.random() < 0.35:
+                if gcfg is None:
+                    gcfg = {"window": window, "buckets": buckets, "threshold": th, "via": "group", "key": ""}
+                shedders.append({"window": gcfg["window"], "buckets": gcfg["buckets"], "threshold": gcfg["threshold"],
+                                 "via": "group", "key": "key%d" % k})
+            else:
+                # same configuration as another shedder now and then: nothing may be shared all the same
+                if shedders and rng.random() < 0.3:
+                    o = rng.choice(shedders)
+                    window, buckets, th = o["window"], o["buckets"], o["threshold"]
+                shedders.append({"window": window, "buckets": buckets, "threshold": th, "via": "direct", "key": ""})
+        t0 = BASE + rng.choice([0, 1, rng.randrange(10 * SEC)])
+        mode = "split" if rng.random() < 0.2 else "real"
+        nops = rng.randint(25, 110) if tier != "search" else rng.randint(12, 70)
+        births = sorted(rng.sample(range(nops), n - 1)) if rng.random() < 0.6 else [0] * (n - 1)
+        disable_at = rng.randrange(nops) if rng.random() < 0.35 else None
+        traces = [rng.choice(["high", "high", "at", "spiky", "mixed", "mixed", "low"]) for _ in range(n)]
+        styles = [rng.choice(["short", "bucket", "long", "mixed"]) for _ in range(n)]
+        ops = [["new", 0, t0]]
+        alive = [0]
+        pending = list(range(1, n))
+        open_ids = {k: [] for k in range(n)}
+        steps = [0] * n
+        t = t0
+        while len(ops) < nops:
+            if disable_at is not None and len(ops) >= disable_at:
+                ops.append(["disable"])
+                disable_at = None
+                continue
+            if pending and len(ops) >= births[0]:
+                k = pending.pop(0)
+                births.pop(0)
+                ops.append(["new", k, t])
+                alive.append(k)
+                continue
+            k = rng.choice(alive)
+            cfg = shedders[k]
+            th = cfg["threshold"]
+            r = rng.random()
+            if r < 0.42:
+                for _ in range(rng.choice([1, 1, 2, 3, 5, 8, 12])):
+                    c1 = self._cpu(rng, th, traces[k], steps[k])
+                    c2 = c1 if mode == "real" else self._cpu(rng, th, rng.choice(["low", "high", "at", "mixed"]), steps[k])
+                    open_ids[k].append(len(ops))
+                    ops.append(["allow", k, t, c1, c2])
+                    steps[k] += 1
+            elif r < 0.62 and open_ids[k]:
+                for _ in range(rng.choice([1, 1, 2, 4, 8])):
+                    if open_ids[k]:
+                        ops.append(["pass", k, open_ids[k].pop(rng.randrange(len(open_ids[k]))), t])
+            elif r < 0.76 and open_ids[k]:
+                for _ in range(rng.choice([1, 1, 2, 4])):
+                    if open_ids[k]:
+                        ops.append(["fail", k, open_ids[k].pop(rng.randrange(len(open_ids[k])))])
+            else:
+                t += self._gap(rng, cfg["window"] // cfg["buckets"], cfg["window"], styles[k])
+        return {"kind": "multi", "t0": t0, "mode": mode, "group": gcfg, "shedders": shedders, "ops": ops}
+
+    # the REST / zRPC wrapper in front of one long-lived real shedder; requests overlap (handlers wait on gates)
+    def _gen_wreal(self, rng, tier):
+        rest = rng.random() < 0.5
+        window, buckets = self._config(rng) if rng.random() < 0.5 else rng.choice([(5 * SEC, 50), (SEC, 10), (3 * SEC, 4), (SEC, 1)])
+        bd = window // buckets
+        th = rng.choice([900] * 6 + [500, 100, 990, 0, 999, 1100])
+        t0 = BASE + rng.choice([0, 1, rng.randrange(10 * SEC)])
+        trace = rng.choice(["high", "high", "at", "spiky", "mixed", "mixed", "ramp"])
+        style = rng.choice(["short", "bucket", "mixed", "short"])
+        nops = rng.randint(20, 90) if tier != "search" else rng.randint(10, 50)
+        # overload-class outcomes (503 / DeadlineExceeded -> Fail) are frequent in some cases
+        failish = rng.random() < 0.3
+        reqs, ops, open_ids = [], [], []
+        t, step = t0, 0
+        while len(ops) < nops:
+            r = rng.random()
+            if r < 0.45:
+                for _ in range(rng.choice([1, 1, 2, 3, 5, 8, 12])):
+                    if rest:
+                        codes = [rng.choice(REST_CODES + ([503] * 8 if failish else []))
+                                 for _ in range(rng.choice([0, 1, 1, 1, 2, 3]))]
+                        reqs.append({"codes": codes, "body": rng.random() < 0.5, "panic": rng.random() < 0.12})
+                    else:
+                        reqs.append({"out": rng.choice(RPC_OUTS + (["deadline", "wrapped"] * 3 if failish else []))})
+                    open_ids.append(len(ops))
+                    ops.append(["start", t, self._cpu(rng, th, trace, step), len(reqs) - 1])
+                    step += 1
+            elif r < 0.78 and open_ids:
+                for _ in range(rng.choice([1, 1, 2, 4, 8])):
+                    if open_ids:
+                        ops.append(["finish", open_ids.pop(rng.randrange(len(open_ids))), t])
+            else:
+                t += self._gap(rng, bd, window, style)
+        return {"kind": "wrest" if rest else "wrpc", "window": window, "buckets": buckets, "threshold": th, "t0": t0,
+                "reqs": reqs, "ops": ops}
+
     def _cpu(self, rng, th, trace, step):
         below = [th - 1, th - 50, th - 400, 0, th - 1]
         above = [th, th + 1, th + 50, th + (1000 - th) // 2, th + (1000 - th) * 3 // 4, 1000, 1050, 999]
@@ -273,31 +479,84 @@ class C02(Property):
         return max(0, rng.choice(pool))
 
     # ---- execution -----------------------------------------------------------
+    @staticmethod
+    def _to_scenario(case):
+        """single-shedder history -> the executor's scenario format (promise ids = global op indices)"""
+        pre = ([] if case["enabled"] else [["disable"]]) + [["new", 0, case["t0"]]]
+        off = len(pre)
+        ops = list(pre)
+        for o in case["ops"]:
+            if o[0] == "allow":
+                ops.append(["allow", 0, o[1], o[2], o[3]])
+            elif o[0] == "pass":
+                ops.append(["pass", 0, o[1] + off, o[2]])
+            else:
+                ops.append(["fail", 0, o[1] + off])
+        cfg = {"window": case["window"], "buckets": case["buckets"], "threshold": case["threshold"],
+               "via": case["via"], "key": "k"}
+        return {"t0": case["t0"], "mode": case["mode"], "group": cfg if case["via"] == "group" else None,
+                "shedders": [cfg], "ops": ops}, off
+
+    def _run_executor(self, ex, sub):
+        pkg, ov, test = EXECUTORS[ex]
+        return vlib.go_test_overlay(pkg, ov, run=test, cases=sub, tag="c02" + ex, timeout=900)
+
     def execute(self, cases, ctx):
         out = [None] * len(cases)
-        for kind, (pkg, ov, test) in EXECUTORS.items():
-            idx = [i for i, c in enumerate(cases) if c.get("kind", "shed") == kind]
+        jobs = {}
+        for ex in EXECUTORS:
+            idx = [i for i, c in enumerate(cases) if EXEC_OF[c.get("kind", "shed")] == ex]
             if not idx:
                 continue
-            sub = [dict(cases[i], id=j) for j, i in enumerate(idx)]
-            rc, log_, res = vlib.go_test_overlay(pkg, ov, run=test, cases=sub, tag="c02" + kind, timeout=900)
+            sub, offs = [], []
+            for j, i in enumerate(idx):
+                c = cases[i]
+                if c.get("kind", "shed") == "shed":
+                    sc, off = self._to_scenario(c)
+                    sub.append(dict(sc, id=j))
+                    offs.append(off)
+                else:
+                    sub.append(dict(c, id=j))
+                    offs.append(0)
+            jobs[ex] = (idx, sub, offs)
+        # the executors are independent go test processes: run them side by side
+        if vlib.COVER or len(jobs) <= 1:
+            done = {ex: self._run_executor(ex, jobs[ex][1]) for ex in jobs}
+        else:
+            import concurrent.futures
+            with concurrent.futures.ThreadPoolExecutor(max_workers=len(jobs)) as pool:
+                futs = {ex: pool.submit(self._run_executor, ex, jobs[ex][1]) for ex in jobs}
+                done = {ex: f.result() for ex, f in futs.items()}
+        for ex, (idx, sub, offs) in jobs.items():
+            rc, log_, res = done[ex]
             if rc != 0 or len(res) != len(sub):
-                raise ExecError("c02 %s executor rc=%s (%d/%d results): %s" % (kind, rc, len(res), len(sub), log_[-3000:]))
-            for i, r in zip(idx, res):
+                raise ExecError("c02 %s executor rc=%s (%d/%d results): %s" % (ex, rc, len(res), len(sub), log_[-3000:]))
+            for i, r, off in zip(idx, res, offs):
                 if r.get("err"):
                     raise ExecError("c02 executor: case %s: %s" % (cases[i].get("id"), r["err"]))
+                kind = cases[i].get("kind", "shed")
                 if kind == "shed":
-                    out[i] = {"obs": r["obs"], "same": r["same"], "nop": r["nop"], "tries": r.get("tries", 1)}
+                    nw = r["obs"][off - 1]
+                    out[i] = {"obs": r["obs"][off:], "same": nw["same"], "nop": nw["nop"], "ws": [nw["wm"], nw["we"]],
+                              "tries": r.get("tries", 1)}
+                elif kind in ("multi", "wrest", "wrpc"):
+                    out[i] = {"obs": r["obs"], "tries": r.get("tries", 1)}
                 else:
                     out[i] = {"obs": r["obs"]}
         return out
 
     def prepare(self, ctx):
         # compile the overlay tests once (also proves they still build against the current tree)
-        for kind, (pkg, ov, test) in EXECUTORS.items():
-            if kind == "group":
-                continue
-            rc, out, res = vlib.go_test_overlay(pkg, ov, run=test, cases=[], tag="c02p", timeout=900)
+        def one(ex):
+            return self._run_executor(ex, [])
+        exs = [ex for ex in EXECUTORS if ex != "group"]
+        if vlib.COVER:
+            rs = [one(ex) for ex in exs]
+        else:
+            import concurrent.futures
+            with concurrent.futures.ThreadPoolExecutor(max_workers=len(exs)) as pool:
+                rs = list(pool.map(one, exs))
+        for rc, out, res in rs:
             if rc != 0:
                 return False, out
         return True, ""
@@ -327,7 +586,11 @@ class C02(Property):
         if kind == "rest":
             items = []
             for q, o in zip(case["reqs"], obs["obs"]):
-                rq = "WRest %s (mkRO %s %s)" % ("VShed" if q["shed"] else "VGrant", clist([cz(c) for c in q["codes"]]), cbool(q["panic"]))
+                ro = "(mkRO %s %s)" % (clist([cz(c) for c in q["codes"]]), cbool(q["panic"]))
+                if q.get("nil"):
+                    rq = "WRestNoShedder %s" % ro
+                else:
+                    rq = "WRest %s %s" % ("VShed" if q["shed"] else "VGrant", ro)
                 ob = "WO %s %s %s %s (VisStatus %s) %s" % (cz(o["runs"]), cz(o["allows"]), cz(o["passes"]), cz(o["fails"]), cz(o["code"]), cbool(o["panic"]))
                 items.append("(%s, %s)" % (rq, ob))
             return "CWrap %s" % clist(items)
@@ -335,24 +598,85 @@ class C02(Property):
             items = []
             for q, o in zip(case["reqs"], obs["obs"]):
                 rq = "WRpc %s %s" % ("VShed" if q["shed"] else "VGrant", RPC_COQ[q["out"]])
-                v = o["vis"]
-                vis = "VisExhausted" if v == "exhausted" else ("(VisRpc %s)" % RPC_COQ[v] if v in RPC_COQ else "(VisStatus (-1))")
-                if v in RPC_COQ and v != "panic" and not o["val"]:
-                    vis = "(VisStatus (-2))"   # the handler's value was lost
-                ob = "WO %s %s %s %s %s %s" % (cz(o["runs"]), cz(o["allows"]), cz(o["passes"]), cz(o["fails"]), vis, cbool(o["panic"]))
+                ob = "WO %s %s %s %s %s %s" % (cz(o["runs"]), cz(o["allows"]), cz(o["passes"]), cz(o["fails"]),
+                                               self._rpc_vis(o), cbool(o["panic"]))
                 items.append("(%s, %s)" % (rq, ob))
             return "CWrap %s" % clist(items)
         if kind == "group":
             return "CGroup %s %s" % (clist([cz(k) for k in case["keys"]]),
                                      clist(["(%s, %s)" % (cz(a), cz(b)) for a, b in obs["obs"]]))
+        if kind == "multi":
+            return "CMulti %s" % clist(["(%s)" % self._coq_shed(c, o) for c, o in self._split(case, obs)])
+        if kind in ("wrest", "wrpc"):
+            return self._coq_wreal(case, obs)
         return "CShed (%s)" % self._coq_shed(case, obs)
+
+    @staticmethod
+    def _rpc_vis(o):
+        v = o["vis"]
+        vis = "VisExhausted" if v == "exhausted" else ("(VisRpc %s)" % RPC_COQ[v] if v in RPC_COQ else "(VisStatus (-1))")
+        if v in RPC_COQ and v != "panic" and not o["val"]:
+            vis = "(VisStatus (-2))"   # the handler's value was lost
+        return vis
+
+    def _coq_wreal(self, case, obs):
+        rest = case["kind"] == "wrest"
+        items = []
+        for o, b in zip(case["ops"], obs["obs"]):
+            if o[0] == "start":
+                q = case["reqs"][o[3]]
+                if rest:
+                    wo = "(WoRest (mkRO %s %s))" % (clist([cz(c) for c in q["codes"]]), cbool(q["panic"]))
+                    vis = "(VisStatus %s)" % cz(b["code"] if b["shed"] else 0)
+                else:
+                    wo = "(WoRpc %s)" % RPC_COQ[q["out"]]
+                    vis = self._rpc_vis(dict(b, val=True)) if b["shed"] else "(VisStatus 0)"
+                op = "WStart %s %s %s" % (cz(o[1]), cz(o[2]), wo)
+                ob = "WSO %s %s %s %s %s %s %s" % (cbool(b["shed"]), cz(b["allows"]), cz(b["runs"]), vis, cz(b["fl"]), cz(b["am"]), cz(b["ae"]))
+            else:
+                vis = ("(VisStatus %s)" % cz(b["code"])) if rest else (self._rpc_vis(b) if b["done"] else "(VisStatus 0)")
+                op = "WFinish %s %s" % (cz(o[1]), cz(o[2]))
+                ob = "WFO %s %s %s %s %s %s %s %s" % (cbool(b["done"]), cz(b["passes"]), cz(b["fails"]), vis, cbool(b["panic"]),
+                                                      cz(b["fl"]), cz(b["am"]), cz(b["ae"]))
+            items.append("(%s, %s)" % (op, ob))
+        cfg = "(mkCfg %s %s %s true)" % (cz(case["window"]), cz(case["buckets"]), cz(case["threshold"]))
+        return "CWReal %s %s %s" % (cfg, cz(case["t0"]), clist(items))
+
+    @staticmethod
+    def _split(case, obs):
+        """a scenario -> one (single-shedder case, observation) pair per shedder, promise ids local"""
+        per = {}
+        disabled = False
+        where = {}    # global op index of an Allow -> (shedder, local index)
+        for gi, (o, b) in enumerate(zip(case["ops"], obs["obs"])):
+            if o[0] == "disable":
+                disabled = True
+            elif o[0] == "new":
+                cfg = case["shedders"][o[1]]
+                if cfg["via"] == "group":
+                    cfg = dict(case["group"], via="group")
+                per[o[1]] = ({"window": cfg["window"], "buckets": cfg["buckets"], "threshold": cfg["threshold"],
+                              "t0": o[2], "enabled": not disabled, "via": cfg["via"], "mode": case["mode"], "ops": []},
+                             {"obs": [], "same": b["same"], "nop": b["nop"], "ws": [b["wm"], b["we"]]})
+            else:
+                c, ob = per[o[1]]
+                if o[0] == "allow":
+                    where[gi] = (o[1], len(c["ops"]))
+                    c["ops"].append(["allow", o[2], o[3], o[4]])
+                else:
+                    k, li = where.get(o[2], (None, -1))
+                    li = li if k == o[1] else -1
+                    c["ops"].append(["pass", li, o[3]] if o[0] == "pass" else ["fail", li])
+                ob["obs"].append(b)
+        return [per[k] for k in sorted(per)]
 
     def _coq_shed(self, case, obs):
         items = []
         for o, b in zip(case["ops"], obs["obs"]):
             if o[0] == "allow":
                 op = "OAllow %s %s %s" % (cz(o[1]), cz(o[2]), cz(o[3]))
-                ob = "OA %s %s %s %s %s %s" % (cbool(b["shed"]), cz(b["fl"]), cz(b["mp"]), cz(b["rt"]), cz(b["am"]), cz(b["ae"]))
+                ob = "OA %s %s %s %s %s %s %s %s" % (cbool(b["shed"]), cz(b["fl"]), cz(b["mp"]), cz(b["rt"]), cz(b["am"]), cz(b["ae"]),
+                                                     cz(b["cm"]), cz(b["ce"]))
             elif o[0] == "pass":
                 op = "OPass %s %s" % (cz(o[1]), cz(o[2]))
                 ob = "OR %s %s %s %s" % (cbool(b["done"]), cz(b["fl"]), cz(b["am"]), cz(b["ae"]))
@@ -361,7 +685,8 @@ class C02(Property):
                 ob = "OR %s %s %s %s" % (cbool(b["done"]), cz(b["fl"]), cz(b["am"]), cz(b["ae"]))
             items.append("(%s, %s)" % (op, ob))
         cfg = "(mkCfg %s %s %s %s)" % (cz(case["window"]), cz(case["buckets"]), cz(case["threshold"]), cbool(case["enabled"]))
-        return "mkCase %s %s %s %s %s" % (cfg, cz(case["t0"]), cbool(obs["same"]), cbool(obs["nop"]), clist(items))
+        return "mkCase %s %s %s %s true (%s, %s) %s" % (cfg, cz(case["t0"]), cbool(obs["same"]), cbool(obs["nop"]),
+                                                        cz(obs["ws"][0]), cz(obs["ws"][1]), clist(items))
 
     # ---- measurement -----------------------------------------------------------
     def _walk(self, case, obs):
@@ -399,8 +724,40 @@ class C02(Property):
             avg = dyadic(b["am"], b["ae"])
         return res
 
+    def _views(self, case, obs):
+        """the single-shedder histories contained in a case: [(legacy case, observation)]"""
+        kind = case.get("kind", "shed")
+        if kind == "shed":
+            return [(case, obs)]
+        if kind == "multi":
+            return self._split(case, obs)
+        if kind in ("wrest", "wrpc"):
+            ops, ob = [], []
+            for o, b in zip(case["ops"], obs["obs"]):
+                if o[0] == "start":
+                    ops.append(["allow", o[1], o[2], o[2]])
+                    ob.append({"shed": b["shed"], "fl": b["fl"], "am": b["am"], "ae": b["ae"], "mp": 0, "rt": 0})
+                else:
+                    ops.append(["fail" if b["fails"] else "pass", o[1], o[2]])
+                    ob.append({"done": b["done"], "fl": b["fl"], "am": b["am"], "ae": b["ae"]})
+            return [({"window": case["window"], "buckets": case["buckets"], "threshold": case["threshold"], "t0": case["t0"],
+                      "enabled": True, "via": "direct", "mode": "real", "ops": ops}, {"obs": ob, "nop": False, "same": True})]
+        return []
+
     def nontrivial(self, case, obs):
         kind = case.get("kind", "shed")
+        if kind in ("multi", "wrest", "wrpc"):
+            vs = self._views(case, obs)
+            live = [(c, o) for c, o in vs if not o["nop"]]
+            if kind == "multi":
+                # at least two live shedders with traffic, one of them shedding
+                busy = [1 for c, o in live if sum(1 for x in c["ops"] if x[0] == "allow") >= 3]
+                return len(busy) >= 2 and any(b.get("shed") for c, o in live for b in o["obs"])
+            w = self._walk(*live[0])
+            ob = obs["obs"]
+            return (any(x[1] for x in w) and any(b["k"] == "finish" and b["fails"] for b in ob)
+                    and any(b["k"] == "finish" and b["passes"] for b in ob)
+                    and any(b["k"] == "start" and not b["shed"] and b["fl"] >= 3 for b in ob))
         if kind in ("rest", "rpc"):
             qs = case["reqs"]
             return any(q["shed"] for q in qs) and any(o["fails"] for o in obs["obs"]) and any(o["passes"] for o in obs["obs"])
@@ -416,6 +773,34 @@ class C02(Property):
 
     def features(self, case, obs):
         kind = case.get("kind", "shed")
+        if kind in ("multi", "wrest", "wrpc"):
+            fs = ["kind=" + kind]
+            vs = self._views(case, obs)
+            if kind == "multi":
+                fs.append("shedders=%d" % len(vs))
+                if any(o["nop"] for c, o in vs) and any(not o["nop"] for c, o in vs):
+                    fs.append("disable_between_constructions")
+                if any(c["via"] == "group" for c, o in vs):
+                    fs.append("group_members")
+                cfgs = [(c["window"], c["buckets"], c["threshold"]) for c, o in vs]
+                if len(set(cfgs)) < len(cfgs):
+                    fs.append("two_shedders_same_config")
+            else:
+                ob = obs["obs"]
+                if any(b["k"] == "finish" and b["panic"] for b in ob):
+                    fs.append("wrapper_handler_panics")
+                fs.append("max_in_flight<=%d" % (5 * (1 + max([b["fl"] for b in ob] + [0]) // 5)))
+            for c, o in vs:
+                if o["nop"]:
+                    continue
+                bd = c["window"] // c["buckets"]
+                fs.append("bucket_" + ("divides_1s" if SEC % bd == 0 else "gt_1s" if bd > SEC else "not_dividing_1s"))
+                w = self._walk(c, o)
+                if any(x[1] for x in w):
+                    fs.append(kind + "_sheds")
+                if any(s_ and not ov for (_, s_, _, ov) in w):
+                    fs.append("shed_while_cooling_off")
+            return sorted(set(fs))
         if kind != "shed":
             fs = ["kind=" + kind]
             if kind != "group":
@@ -426,7 +811,9 @@ class C02(Property):
                 if kind == "rest" and any(not q["codes"] and not q["body"] and not q["shed"] for q in case["reqs"]):
                     fs.append("wrapper_handler_writes_nothing")
             return fs
+        bd = case["window"] // case["buckets"]
         fs = ["buckets<=%d" % (10 * (1 + (case["buckets"] - 1) // 10)), "window_s=%d" % (case["window"] // SEC),
+              "bucket_" + ("divides_1s" if SEC % bd == 0 else "gt_1s" if bd > SEC else "not_dividing_1s"),
               "mode=" + case["mode"], "via=" + case["via"], "threshold=%d" % case["threshold"],
               "ops<=%d" % (20 * (1 + len(case["ops"]) // 20))]
         if obs["nop"]:
@@ -454,8 +841,38 @@ class C02(Property):
         return fs
 
     # ---- shrinking: delete operations, renumber promise ids --------------------
+    def _shrink_scenario(self, case):
+        """multi / wrest / wrpc: delete operations (never a "new"), renumber the references"""
+        ops = case["ops"]
+        n = len(ops)
+        ref = {"pass": 2, "fail": 2, "finish": 1}
+        res = []
+        chunk = max(1, n // 2)
+        while True:
+            for i in range(0, n, chunk):
+                keep = [j for j in range(n) if not (i <= j < i + chunk) or ops[j][0] == "new"]
+                if len(keep) == n:
+                    continue
+                ks = set(keep)
+                kept = [j for j in keep if ops[j][0] not in ref or ops[j][ref[ops[j][0]]] in ks]
+                new = {j: k for k, j in enumerate(kept)}
+                out = []
+                for j in kept:
+                    o = list(ops[j])
+                    if o[0] in ref:
+                        o[ref[o[0]]] = new[o[ref[o[0]]]]
+                    out.append(o)
+                if out and len(out) < n:
+                    res.append(dict(case, ops=out))
+            if chunk == 1:
+                break
+            chunk //= 2
+        return res[:240]
+
     def shrink_candidates(self, case):
         kind = case.get("kind", "shed")
+        if kind in ("multi", "wrest", "wrpc"):
+            return self._shrink_scenario(case)
         if kind != "shed":
             fld = "keys" if kind == "group" else "reqs"
             xs = case[fld]
@@ -517,15 +934,24 @@ class C02(Property):
         if not any(o[0] == "allow" and o[2] >= 1000 and o[3] == 1000 and not b["shed"]
                    for o, b in zip(case["ops"], obs["obs"])):
             return None
-        key = vlib.canon_hash([{k: v for k, v in case.items() if k != "id"}, obs["obs"]])
-        cache = self.__dict__.setdefault("_known_cache", {})
-        if key not in cache:
-            out = vlib.coq_eval_term(self.id, self.check_module or "C02.Check",
-                                     "(prop_ok (%s), prop_ok_excl (%s))" % ((self.coq_case(case, obs),) * 2))
-            cache[key] = bool(re.search(r"=\s*\(false,\s*true\)", out))
-        return self.KNOWN_NAN if cache[key] else None
+        term = self.coq_case(case, obs)
+        if term not in EXCL_CACHE:      # normally filled by the bulk evaluation; this is the fall-back
+            out = vlib.coq_eval_term(self.id, self.check_module or "C02.Check", "(prop_ok_excl (%s), true)" % term)
+            m = vlib.PAIR_RE.search(out)
+            EXCL_CACHE[term] = bool(m and m.group(1) == "true")
+        # known() is only consulted for histories whose prop_ok is false
+        return self.KNOWN_NAN if EXCL_CACHE[term] else None
 
     def describe_failure(self, case, obs):
+        if case.get("kind") in ("wrest", "wrpc"):
+            return ("wrapper in front of a real shedder, overlapping requests: a request was shed although not hot / not above "
+                    "10% of capacity (what the shedder counts as in flight is not what is in flight: a promise was not resolved, "
+                    "or resolved twice), or a let-in request's promise was not resolved exactly once when its handler ended "
+                    "(Fail iff 503 / DeadlineExceeded), or a shed request ran its handler")
+        if case.get("kind") == "multi":
+            return ("several shedders in one process: one of them violates the property on its own history (state shared "
+                    "between instances, options lost on the way through ShedderGroup, or load.Disable() not honoured by a "
+                    "shedder built afterwards)")
         if case.get("kind", "shed") in ("rest", "rpc"):
             return ("wrapper: a shed request ran the handler / did not get the overload answer, or a let-in request's promise "
                     "was not resolved exactly once (Fail iff 503 / DeadlineExceeded), or the handler's result was altered")
